@@ -227,6 +227,9 @@ func (f *frame) exec(in ssa.Instruction, st *State, cur string) (string, error) 
 				v := B.declConst(f.vname(x)+".v", B.sortOf(x.Type().(*types.Tuple).At(0).Type()))
 				ok := B.declConst(f.vname(x)+".ok", "Bool")
 				cur = and(cur, t.typeFacts(st, v, x.Type().(*types.Tuple).At(0).Type()))
+				if B.sortOf(x.Type().(*types.Tuple).At(0).Type()) == "Int" {
+					cur = and(cur, fmt.Sprintf("(=> (and (%s %s) %s) (not (= %s 0)))", B.declFun("nonnilchan", []string{"Int"}, "Bool"), f.termOf(x.X), ok, v))
+				}
 				f.vals[x] = &Val{tuple: []*Val{{term: v}, {term: ok}}}
 				return cur, nil
 			}
@@ -413,9 +416,40 @@ func (f *frame) exec(in ssa.Instruction, st *State, cur string) (string, error) 
 				et := s.Chan.Type().Underlying().(*types.Chan).Elem()
 				v := B.declConst(B.fresh(f.vname(x)+".recv"), B.sortOf(et))
 				tup = append(tup, &Val{term: v})
+				cur = and(cur, t.typeFacts(st, v, et))
+				if B.sortOf(et) == "Int" {
+					// a channel declared to carry no nil values (nonnilchan, an assumed contract on its producer)
+					cur = and(cur, fmt.Sprintf("(=> (and (%s %s) %s) (not (= %s 0)))", B.declFun("nonnilchan", []string{"Int"}, "Bool"), f.termOf(s.Chan), ok, v))
+				}
 			}
 		}
 		f.vals[x] = &Val{tuple: tup}
+		if f.top && f.fc != nil && f.fc.ChanEvents {
+			// the chosen communication is recorded: Send(channel, value) / Recv(channel, value) for reference-typed elements
+			ti := 2
+			for k, s := range x.States {
+				var ev, when string
+				switch s.Dir {
+				case types.SendOnly:
+					if B.sortOf(s.Send.Type()) == "Int" {
+						ev = fmt.Sprintf("(ev_Send %s %s)", f.termOf(s.Chan), f.termOf(s.Send))
+						when = fmt.Sprintf("(= %s %d)", idx, k)
+					}
+				case types.RecvOnly:
+					v := tup[ti]
+					ti++
+					if B.sortOf(s.Chan.Type().Underlying().(*types.Chan).Elem()) == "Int" {
+						ev = fmt.Sprintf("(ev_Recv %s %s)", f.termOf(s.Chan), v.term)
+						when = fmt.Sprintf("(and (= %s %d) %s)", idx, k, ok)
+					}
+				}
+				if ev == "" {
+					continue
+				}
+				st.trace = B.define("trace", "(Array Int Event)", fmt.Sprintf("(ite %s (store %s %s %s) %s)", when, st.trace, st.ntrace, ev, st.trace))
+				st.ntrace = B.define("ntrace", "Int", fmt.Sprintf("(ite %s (+ %s 1) %s)", when, st.ntrace, st.ntrace))
+			}
+		}
 		return cur, nil
 
 	case *ssa.If:
